@@ -342,6 +342,7 @@ func methodOrURL(kw string) string {
 
 func runC11(c *fw.Ctx) {
 	runRefcat(c, "C11")
+	runDupNames(c)
 	runFaults(c, "C11:", func(kind string) bool { return !strings.HasPrefix(kind, "schema-error-") })
 }
 
@@ -668,4 +669,94 @@ func adopts(prev, x *doc.Node) bool {
 		n = n.Kids[len(n.Kids)-1]
 	}
 	return false
+}
+
+// runDupNames: "two ... with one name" for EVERY name, not only the names the pool happens to use:
+// all names of length 1..3 (thorough 4) over {a _ - 1 A . % ~ é} in every name-bearing declaration.
+// A name whose single declaration is accepted must be rejected when it is declared twice, with the
+// diagnostic inside one of the two declarations; for paths also when the second one is spelled
+// with quotes.
+func runDupNames(c *fw.Ctx) {
+	alpha := []string{"a", "_", "-", "1", "A", ".", "%", "~", "é"}
+	maxLen := 3
+	if !c.Quick() {
+		maxLen = 4
+	}
+	type kind struct {
+		name   string
+		decl   func(n string, second bool) string
+		prefix string
+	}
+	kinds := []kind{
+		{"TYPE", func(n string, _ bool) string { return "TYPE @" + n + " any\n" }, ""},
+		{"ENUM", func(n string, _ bool) string { return "ENUM @" + n + "\n  [1]\n" }, ""},
+		{"MACRO", func(n string, _ bool) string { return "MACRO @" + n + "\n(\n  200 any\n)\n" }, ""},
+		{"SERVER", func(n string, _ bool) string { return "SERVER @" + n + "\n  BaseUrl \"http://x\"\n" }, ""},
+		{"TAG", func(n string, _ bool) string { return "TAG @" + n + "\n" }, ""},
+		{"method", func(n string, _ bool) string { return "GET /" + n + "\n  200 any\n" }, ""},
+		{"method-quoted-second", func(n string, second bool) string {
+			if second {
+				return "GET \"/" + n + "\"\n  200 any\n"
+			}
+			return "GET /" + n + "\n  200 any\n"
+		}, ""},
+		{"URL", func(n string, second bool) string {
+			if second {
+				return "URL /" + n + "\n  POST\n    200 any\n"
+			}
+			return "URL /" + n + "\n  GET\n    200 any\n"
+		}, ""},
+		{"URL-method-twice", func(n string, second bool) string {
+			if second {
+				return "GET /" + n + "\n  200 any\n"
+			}
+			return "URL /" + n + "\n  GET\n    200 any\n"
+		}, ""},
+		{"rpc-method", func(n string, _ bool) string { return "  Method " + n + "\n    Params\n      {}\n" }, "URL /r\n  Protocol json-rpc-2.0\n"},
+	}
+	var rec func(prefix string, n int)
+	rec = func(prefix string, n int) {
+		if prefix != "" {
+			for _, k := range kinds {
+				if !c.Next() {
+					continue
+				}
+				c.Count("evaluations", 1)
+				head := "JSIGHT 0.3\n" + k.prefix
+				one := head + k.decl(prefix, false)
+				if !run1(one).OK() {
+					c.Count("dup_names_single_declaration_not_accepted", 1)
+					continue
+				}
+				mid := "TYPE @zz any\n"
+				if k.prefix != "" {
+					mid = ""
+				}
+				two := one + mid + k.decl(prefix, true)
+				c.Distinct(two)
+				o := run1(two)
+				if o.Crashed() {
+					c.Count("skipped_crash", 1)
+					continue
+				}
+				b1, e1 := len(head), len(one)
+				b2, e2 := len(one)+len(mid), len(two)
+				switch {
+				case !o.Rejected():
+					c.Violate("fault-accepted", "C11:dup-name:"+k.name+":accepted", fmt.Sprintf("%s with the name %q declared twice: %s", k.name, prefix, o.Short()), map[string]interface{}{"text": two})
+				case !(o.Index >= b1 && o.Index < e1 || o.Index >= b2 && o.Index < e2):
+					c.Violate("fault-located-elsewhere", "C11:dup-name:"+k.name+":located", fmt.Sprintf("%s with the name %q declared twice: the diagnostic at %d (%s) is in neither declaration [%d,%d) [%d,%d)", k.name, prefix, o.Index, o.Msg, b1, e1, b2, e2), map[string]interface{}{"text": two})
+				default:
+					c.Sample("dup-name "+k.name, 1, map[string]interface{}{"text": two, "diagnostic": o.Short()})
+				}
+			}
+		}
+		if n == 0 {
+			return
+		}
+		for _, a := range alpha {
+			rec(prefix+a, n-1)
+		}
+	}
+	rec("", maxLen)
 }
